@@ -108,6 +108,7 @@ type c42Listener struct {
 	zeroMs   int       // @ms stamp of the close that brought the open count to zero (-1: none)
 	void     bool
 	curMs    int
+	modeAtReady int
 	srv      *vgirpc.Server
 	hookFail atomic.Bool
 	segs     map[int]*vgirpc.ShmSegment
@@ -124,7 +125,15 @@ func c42Start(kind string, idleMs int) (*c42Listener, error) {
 		// a stale file must be replaced
 		_ = os.WriteFile(l.path, []byte("stale"), 0o644)
 		go func() {
-			l.err = srv.RunUnix(l.path, l.idle, func(p string) { ready <- p })
+			l.err = srv.RunUnix(l.path, l.idle, func(p string) {
+				// the readiness instant: from here on clients may connect, so the file must be owner-only NOW
+				if st, err := os.Lstat(p); err == nil {
+					l.modeAtReady = int(st.Mode().Perm())
+				} else {
+					l.modeAtReady = -1
+				}
+				ready <- p
+			})
 			l.retAt = time.Now()
 			l.returned.Store(true)
 			close(l.done)
@@ -335,6 +344,10 @@ func c42Exec(c *Case) {
 			l = nl
 			l.t0 = time.Now()
 			m := l.mode()
+			if l.kind == "unix" && l.modeAtReady != 0o600 {
+				c.Oracle("socket-mode-not-owner-only-at-ready", fmt.Sprintf("at the readiness callback (onBound) the socket file had mode %#o, want owner-only 0600", l.modeAtReady))
+				m = fmt.Sprintf("mode=%d", l.modeAtReady)
+			}
 			if l.kind == "unix" && m != "mode=384" {
 				c.Oracle("socket-mode", fmt.Sprintf("socket file is %s after bind, want owner-only 0600", m))
 			}
@@ -543,7 +556,6 @@ func c42Line(c *Case, l *c42Listener, line string, f []string) string {
 		if !ok {
 			return "bad-op"
 		}
-		_ = n
 		if old != nil {
 			return "refused"
 		}
@@ -553,10 +565,21 @@ func c42Line(c *Case, l *c42Listener, line string, f []string) string {
 			return "refused"
 		}
 		res := "hookrefused"
+		leftOpen := false
 		if c42Send(conn, 0) == nil {
-			if v, err := c42RecvT(conn, 2*time.Second); err == nil {
+			v, err := c42RecvT(conn, 400*time.Millisecond)
+			if err == nil {
 				res = fmt.Sprintf("ok %d", v) // it was served after all
+			} else if ne, ok := err.(net.Error); ok && ne.Timeout() {
+				// a refused connection must be hung up by the server at once (the client reads EOF)
+				leftOpen = true
+				c.Oracle("refused-connection-left-open", fmt.Sprintf("%q: the serve-start hook refused the connection but the server did not close it (no EOF within 400 ms)", line))
 			}
+		}
+		if leftOpen {
+			l.conns[n] = conn // from the client's side it IS still open
+			c.Stat("connx")
+			return "leftopen"
 		}
 		_ = conn.Close()
 		if len(l.conns) == 0 {
